@@ -43,7 +43,7 @@ SUM_KEYS = ("scenarios", "steps", "explained", "batches", "ends", "errors", "pen
 def bounds(tier):
     if tier == "quick":
         return dict(mc=dict(batches=3, readers=2, steps=12), gen=[dict(batches=3, readers=2, steps=14)],
-                    chunk=dict(rows=4, batches=4, chunk=5), cap=1200, parts=6)
+                    chunk=dict(rows=4, batches=4, chunk=5), cap=900, parts=6)
     return dict(mc=dict(batches=4, readers=3, steps=14),
                 gen=[dict(batches=3, readers=2, steps=14), dict(batches=4, readers=3, steps=16),
                      dict(batches=2, readers=3, steps=12)],
@@ -191,7 +191,7 @@ def run(prop, tier, replay):
             if len(samples) < 3 and by_sc:
                 sid = max(by_sc, key=lambda k: sum(1 for e in by_sc[k] if e.get("res", [""])[0] in ("batch", "end")))
                 samples.append({"scenario": by_id.get(sid), "trace": by_sc[sid]})
-    if not replay:
+    if not replay and not out.violations:
         exp_chunk = sum((ch["rows"] + 1) ** n for n in range(ch["batches"] + 1)) * ch["chunk"] * 3
         if agg["chunk"] != exp_chunk or universe != [ch["rows"], ch["batches"], ch["chunk"]]:
             raise vlib.ToolError(f"chunker universe incomplete: {agg['chunk']} calls, expected {exp_chunk} ({universe})")
